@@ -5,7 +5,7 @@
    increase with ply.
    evaluate / heuristic / mate_in_ply / is_terminal: model/Eval.v (bit-exact binary32, model/F32.v). *)
 From WV Require Import Types Bits Attacks Board MoveEnc MoveGen Rules Abs Wf Encode Eval.
-From WV Require Import EvalF32 EvalShortcut EvalProofs.
+From WV Require Import EvalF32 EvalShortcut EvalProofs EvalMirror EvalBound.
 Import WV.Bits.
 Open Scope Z_scope.
 
@@ -70,3 +70,87 @@ Theorem C05_mate_scores : forall d,
   ((d < 2147483648)%N -> mate_in_ply d = POS_INF + one_pawn * Z.max (mate_bonus_plies - Z.of_N d) 0).
 Proof. exact mate_scores. Qed.
 Print Assumptions C05_mate_scores.
+
+(* "returns a non-terminal score for every position that has a legal move".
+   FULL STATEMENT (FALSE in the model, see C05_nonterminal_counterexample below):
+     forall s p d, LegalPos s -> gen_legal s <> [] -> exists v, evaluate s p d = EVal v /\ is_terminal v = false.
+   What holds: the positional part of the heuristic is bounded by B_pos = 2516 centipawns when each side
+   has at most 16 men (color_count, the evaluator's own count) and at most one king, so the score is
+   non-terminal as soon as the material term |term_worths b p - term_worths b (opp p)| is at most 7483
+   (with one king each this is the usual balance 100 dP + 300 dN + 350 dB + 500 dR + 900 dQ). *)
+Theorem C05_nonterminal_bound_partial : forall b p, WfBoard b ->
+  (forall c, color_count b c <= 16) -> (forall c, count b c King <= 1) ->
+  Z.abs (heuristic b p) <= Z.abs (term_worths b p - term_worths b (opp p)) + 2516 /\
+  (Z.abs (term_worths b p - term_worths b (opp p)) <= 7483 -> is_terminal (heuristic b p) = false).
+Proof.
+  exact (fun b p Hwf Hmen Hk => conj (heuristic_bound b p Hwf Hmen Hk) (heuristic_nonterminal b p Hwf Hmen Hk)).
+Qed.
+Print Assumptions C05_nonterminal_bound_partial.
+
+Theorem C05_nonterminal_partial : forall s p d, LegalPos s -> gen_legal s <> [] ->
+  (forall c, color_count (st_board s) c <= 16) ->
+  Z.abs (term_worths (st_board s) p - term_worths (st_board s) (opp p)) <= 7483 ->
+  exists v, evaluate s p d = EVal v /\ is_terminal v = false.
+Proof. exact eval_nonterminal. Qed.
+Print Assumptions C05_nonterminal_partial.
+
+Theorem C05_material_balance : forall b p, count b p King = count b (opp p) King ->
+  term_worths b p - term_worths b (opp p) =
+  100 * (count b p Pawn - count b (opp p) Pawn) + 300 * (count b p Knight - count b (opp p) Knight)
+  + 350 * (count b p Bishop - count b (opp p) Bishop) + 500 * (count b p Rook - count b (opp p) Rook)
+  + 900 * (count b p Queen - count b (opp p) Queen).
+Proof. exact material_balance. Qed.
+Print Assumptions C05_material_balance.
+
+(* non-vacuity and the counterexample (one vm_compute: the magic tables are rebuilt once).
+   mate : White Kg1 Re8, Black Kh8 Pg7 Ph7, Black to move: back-rank mate, -11000 / +11000 at ply 0,
+          -10700 at ply 3, 10000 from ply 10 on.
+   stale: White Ka6 Pa7, Black Ka8, Black to move: stalemate, 0.
+   mid  : the position of C01 (14 legal moves): heuristic 36 / -36, not terminal.
+   big  : White Ke1 Qb1 Qc1 Qd1 Qf1 Qg1 Qb2 Qc2 Qd2 Qe2 Rf2 Rh2 Bb3 Bc3 Nd3 Ne3, Black Ka8, White to move
+          ("k7/8/8/8/8/1BBNN3/1QQQQR1R/1QQQKQQ1 w - - 0 60"): a legal position with 56 legal moves whose
+          static score 10388 is >= POS_INF, i.e. classified terminal although it is neither mate nor
+          stalemate.  The material term alone is 10400 > POS_INF. *)
+Example C05_example :
+  let mate := mkState (mkBoard 0 0 0 1152921504606846976 0 64 54043195528445952 0 0 0 0 9223372036854775808)
+                      Black false false false false None 0 1 in
+  let stale := mkState (mkBoard 281474976710656 0 0 0 0 1099511627776 0 0 0 0 0 72057594037927936)
+                       Black false false false false None 0 1 in
+  let mid := mkState (mkBoard 18014467228958976 0 0 0 0 16 36028831378833408 0 0 0 0 1152921504606846976)
+                     White false false false false (Some 43%N) 0 10 in
+  let big := mkState (mkBoard 0 1572864 393216 40960 7790 16 0 0 0 0 0 72057594037927936)
+                     White false false false false None 0 60 in
+  (legal_posb mate = true /\ gen_legal mate = [] /\ is_check mate = true /\
+   evaluate mate Black 0 = EVal (-11000) /\ evaluate mate White 0 = EVal 11000 /\
+   evaluate mate Black 3 = EVal (-10700) /\ evaluate mate White 12 = EVal 10000) /\
+  (legal_posb stale = true /\ gen_legal stale = [] /\ is_check stale = false /\
+   evaluate stale Black 0 = EVal 0 /\ evaluate stale White 7 = EVal 0) /\
+  (legal_posb mid = true /\ length (gen_legal mid) = 14%nat /\
+   evaluate mid White 0 = EVal 36 /\ evaluate mid Black 0 = EVal (-36) /\
+   is_terminal (heuristic (st_board mid) White) = false /\
+   color_count (st_board mid) White = 4 /\ color_count (st_board mid) Black = 4 /\
+   term_worths (st_board mid) White - term_worths (st_board mid) Black = 0) /\
+  (legal_posb big = true /\ length (gen_legal big) = 56%nat /\ is_check big = false /\
+   evaluate big White 0 = EVal 10388 /\ evaluate big Black 0 = EVal (-10388) /\
+   is_terminal (heuristic (st_board big) White) = true /\
+   color_count (st_board big) White = 16 /\ color_count (st_board big) Black = 1 /\
+   term_worths (st_board big) White - term_worths (st_board big) Black = 10400).
+Proof. vm_compute. repeat split. Qed.
+
+(* the counterexample as a refutation of the full third clause *)
+Theorem C05_nonterminal_counterexample :
+  ~ (forall s p d, LegalPos s -> gen_legal s <> [] ->
+       exists v, evaluate s p d = EVal v /\ is_terminal v = false).
+Proof. exact nonterminal_counterexample. Qed.
+Print Assumptions C05_nonterminal_counterexample.
+
+(* the rules side of the two terminal examples (lazy: the king-safety test of Rules.legal is only
+   evaluated for pseudo-legal moves) *)
+Example C05_example_rules :
+  let mate := mkState (mkBoard 0 0 0 1152921504606846976 0 64 54043195528445952 0 0 0 0 9223372036854775808)
+                      Black false false false false None 0 1 in
+  let stale := mkState (mkBoard 281474976710656 0 0 0 0 1099511627776 0 0 0 0 0 72057594037927936)
+                       Black false false false false None 0 1 in
+  Rules.checkmate (abs mate) = true /\ Rules.stalemate (abs mate) = false /\
+  Rules.stalemate (abs stale) = true /\ Rules.checkmate (abs stale) = false.
+Proof. lazy. repeat split. Qed.
